@@ -491,3 +491,129 @@ Proof.
       with (Some [prefix_value delim pfx vals; op]) by reflexivity.
     rewrite go_topic_fmt by assumption. rewrite M3. cbn [andb run_body]. reflexivity.
 Qed.
+
+Lemma lookups3 : forall a b c en va vb vc,
+  lookup a en = Some va -> lookup b en = Some vb -> lookup c en = Some vc ->
+  lookups [a; b; c] en = Some [va; vb; vc].
+Proof. intros. cbn [lookups]. rewrite H, H0, H1. reflexivity. Qed.
+
+Lemma java_matches_spec : forall sd delim sc op pfx g vals,
+  parse_prefix pfx = Some g -> List.length vals = List.length (vars_of g) ->
+  vars_safe Java sd op (vars_of g) = true -> in_domain Java delim sc op pfx = true ->
+  topic fixed Java sd delim sc op pfx vals = Some (spec_topic delim sc op pfx vals).
+Proof.
+  intros sd delim sc op pfx g vals Hp Hlen Hvs Hdom.
+  pose proof (parse_prefix_segments _ _ Hp) as ->.
+  unfold vars_safe in Hvs. repeat rewrite andb_true_iff in Hvs. destruct Hvs as [[Hpar Hvs0] [[Hvs1 Hvs2] Hvs3]].
+  unfold in_domain in Hdom. cbv zeta in Hdom. repeat rewrite andb_true_iff in Hdom.
+  destruct Hdom as [[Nsc Nop] [[Lp Ld] Nx]].
+  apply negb_mem_false in Hvs0, Hvs1, Hvs2, Hvs3.
+  pose proof (name_ok_word _ Nsc) as Wsc. pose proof (name_ok_word _ Nop) as Wop.
+  pose proof (title_word _ Wsc) as Wt.
+  set (vars := vars_of (segments pfx)) in *.
+  assert (Hnd : nodupb vars = true). { unfold params_ok in Hpar. apply nodupb_app in Hpar. tauto. }
+  rewrite (topic_unfold fixed Java sd delim sc op pfx vals _ Hp Hlen Hpar eq_refl).
+  unfold run_prog. cbn [p_consts p_body run_consts eval]. rewrite (unq_ok _ _ Ld). fold vars.
+  set (en0 := combine vars vals ++ [(n_DELIMITER, delim)]).
+  assert (Hlk : lookups vars en0 = Some vals) by (apply lookups_combine; assumption).
+  assert (Uop : unq 34 op = Some op) by (apply unq_ok, word_lit_ok; [left; reflexivity|exact Wop]).
+  assert (Ut : unq 34 (pct_s ++ title sc ++ pct_s ++ pct_s) = Some (pct_s ++ title sc ++ pct_s ++ pct_s)).
+  { apply unq_ok. rewrite !lit_ok_app. rewrite (word_lit_ok 34 (title sc)) by (auto). reflexivity. }
+  assert (T37 : no_char 37 (title sc) = true) by (apply word_no_char; auto).
+  assert (Fx : mem n_op (fixed_params Java sd op) = false /\ mem n_prefix (fixed_params Java sd op) = false
+               /\ mem n_topic (fixed_params Java sd op) = false) by (destruct sd; repeat split; reflexivity).
+  destruct Fx as [F1 [F2 F3]].
+  assert (M1 : mem n_op (fixed_params Java sd op ++ vars) = false) by (rewrite mem_app, Hvs0, F1; reflexivity).
+  assert (M2 : mem n_prefix (n_op :: fixed_params Java sd op ++ vars) = false).
+  { cbn [mem]. rewrite mem_app, Hvs1, F2. reflexivity. }
+  assert (M3 : mem n_topic (n_prefix :: n_op :: fixed_params Java sd op ++ vars) = false).
+  { cbn [mem]. rewrite mem_app, Hvs2, F3. reflexivity. }
+  rewrite spec_topic_eq.
+  rewrite run_body_cons. cbn [eval]. rewrite Uop, M1. cbn [andb].
+  rewrite run_body_cons.
+  rewrite (eval_prefix_gj Java delim pfx vals ((n_op, op) :: en0)); auto;
+    [|rewrite lookups_skip by exact Hvs0; exact Hlk].
+  rewrite M2. cbn [andb].
+  rewrite run_body_cons. cbn [eval]. rewrite Ut.
+  rewrite (lookups3 n_prefix n_DELIMITER n_op _ (prefix_value delim pfx vals) delim op);
+    [|reflexivity| |reflexivity].
+  - rewrite java_topic_fmt by assumption. rewrite M3. cbn [andb run_body]. reflexivity.
+  - change (lookup n_DELIMITER en0 = Some delim). unfold en0.
+    rewrite lookup_notin_combine by exact Hvs3. reflexivity.
+Qed.
+
+(** Python *)
+Lemma py_fmt_plain : forall s, no_char 123 s = true -> no_char 125 s = true -> py_fmt s 0 [] = Some s.
+Proof.
+  intros s Ha Hb. rewrite <- (app_nil_r s) at 1. rewrite py_fmt_lit by assumption. cbn. rewrite app_nil_r. reflexivity.
+Qed.
+
+Lemma eval_prefix_py : forall delim pfx vals en,
+  lit_ok 39 pfx = true -> lit_ok 39 delim = true ->
+  (null (vars_of (segments pfx)) ||
+   (no_char 123 (lits_of (segments pfx)) && no_char 125 (lits_of (segments pfx)) &&
+    no_char 123 delim && no_char 125 delim)) = true ->
+  List.length vals = List.length (vars_of (segments pfx)) ->
+  lookups (vars_of (segments pfx)) en = Some vals ->
+  eval Py (prefix_expr braces delim pfx (segments pfx)) en = Some (prefix_value delim pfx vals).
+Proof.
+  intros delim pfx vals en Hp Hd Hpc Hlen Hlk. unfold prefix_expr, prefix_value.
+  destruct (vars_of (segments pfx)) as [|v vs] eqn:V.
+  - destruct pfx as [|c p]; [reflexivity|].
+    rewrite (subst_novars _ _ V), render_segments. cbn [eval]. apply unq_ok.
+    rewrite lit_ok_app, Hp, Hd. reflexivity.
+  - cbn [null orb] in Hpc. repeat rewrite andb_true_iff in Hpc. destruct Hpc as [[[A B] C] D].
+    assert (U : unq 39 (template braces (segments pfx) ++ delim) = Some (template braces (segments pfx) ++ delim)).
+    { apply unq_ok. rewrite lit_ok_app, Hd, andb_true_r. apply lit_ok_template; [|reflexivity].
+      apply forallb_lits_segments. exact Hp. }
+    assert (NE : pfx <> []). { intro E. rewrite (segments_nil_vars _ E) in V. discriminate. }
+    destruct pfx as [|c p]; [contradiction|].
+    rewrite <- V in *. cbn [eval]. rewrite U, Hlk.
+    rewrite <- (app_nil_r vals) at 1. rewrite py_fmt_template by assumption.
+    rewrite py_fmt_plain by assumption. reflexivity.
+Qed.
+
+Lemma py_topic_fmt : forall P t delim op,
+  no_char 123 t = true -> no_char 125 t = true ->
+  py_fmt (braces ++ t ++ braces ++ braces) 0 [P; delim; op] = Some (P ++ t ++ delim ++ op).
+Proof.
+  intros P t delim op Ha Hb. unfold braces at 1. cbn [app]. rewrite py_fmt_hole.
+  rewrite py_fmt_lit by assumption. unfold braces. cbn [app]. rewrite !py_fmt_hole. cbn.
+  rewrite app_nil_r. reflexivity.
+Qed.
+
+Lemma py_matches_spec : forall sd delim sc op pfx g vals,
+  parse_prefix pfx = Some g -> List.length vals = List.length (vars_of g) ->
+  vars_safe Py sd op (vars_of g) = true -> in_domain Py delim sc op pfx = true ->
+  topic fixed Py sd delim sc op pfx vals = Some (spec_topic delim sc op pfx vals).
+Proof.
+  intros sd delim sc op pfx g vals Hp Hlen Hvs Hdom.
+  pose proof (parse_prefix_segments _ _ Hp) as ->.
+  unfold vars_safe in Hvs. repeat rewrite andb_true_iff in Hvs. destruct Hvs as [[Hpar Hvs0] Hvs3].
+  unfold in_domain in Hdom. cbv zeta in Hdom. repeat rewrite andb_true_iff in Hdom.
+  destruct Hdom as [[Nsc Nop] [[Lp Ld] Nx]].
+  apply negb_mem_false in Hvs0, Hvs3.
+  pose proof (name_ok_word _ Nsc) as Wsc. pose proof (name_ok_word _ Nop) as Wop.
+  pose proof (title_word _ Wsc) as Wt.
+  set (vars := vars_of (segments pfx)) in *.
+  assert (Hnd : nodupb vars = true). { unfold params_ok in Hpar. apply nodupb_app in Hpar. tauto. }
+  rewrite (topic_unfold fixed Py sd delim sc op pfx vals _ Hp Hlen Hpar eq_refl).
+  unfold run_prog. cbn [p_consts p_body run_consts eval]. rewrite (unq_ok _ _ Ld). fold vars.
+  set (en0 := combine vars vals ++ [(n_self_DELIMITER, delim)]).
+  assert (Hlk : lookups vars en0 = Some vals) by (apply lookups_combine; assumption).
+  assert (Uop : unq 39 op = Some op) by (apply unq_ok, word_lit_ok; [right; reflexivity|exact Wop]).
+  assert (Ut : unq 39 (braces ++ title sc ++ braces ++ braces) = Some (braces ++ title sc ++ braces ++ braces)).
+  { apply unq_ok. rewrite !lit_ok_app. rewrite (word_lit_ok 39 (title sc)) by (auto). reflexivity. }
+  rewrite spec_topic_eq.
+  rewrite run_body_cons. cbn [eval]. rewrite Uop. cbn [redecl_ok negb]. rewrite andb_false_r.
+  rewrite run_body_cons.
+  rewrite (eval_prefix_py delim pfx vals ((n_op, op) :: en0)); auto;
+    [|rewrite lookups_skip by exact Hvs0; exact Hlk].
+  rewrite andb_false_r.
+  rewrite run_body_cons. cbn [eval py_raw fixed]. rewrite Ut.
+  rewrite (lookups3 n_prefix n_self_DELIMITER n_op _ (prefix_value delim pfx vals) delim op);
+    [|reflexivity| |reflexivity].
+  - rewrite py_topic_fmt by (apply word_no_char; auto). rewrite andb_false_r. cbn [run_body]. reflexivity.
+  - change (lookup n_self_DELIMITER en0 = Some delim). unfold en0.
+    rewrite lookup_notin_combine by exact Hvs3. reflexivity.
+Qed.
